@@ -34,6 +34,8 @@ def population(hv, tier, sd, pops, per_pop):
             got = bf.gen_cases(hv, "M", sd, n, "\n".join(seeds) + "\n")
         elif pop == "E":
             got = exhaustive_cases(n)
+        elif pop == "K":
+            got = movers(random.Random(sd * 31 + 5), n)
         else:
             got = bf.gen_cases(hv, pop, sd, n)
         cases += got
@@ -49,6 +51,37 @@ def population(hv, tier, sd, pops, per_pop):
                 c["w"] = rng.choice([8, 8, 16, 32, 64])
         c["id"] = "%s%d" % (c["pop"], i)
         out.append(c)
+    return out
+
+
+def movers(rng, n):
+    """Population K: short programs that are mostly pointer moves inside loops which run zero times
+    or once - the declared access window and the loop's shift are large compared with the program
+    length and with the pointer excursion of the run (the margin of C10 is the program length)."""
+    out = []
+    for _ in range(n):
+        d = rng.choice("<>")
+        r = "<" if d == ">" else ">"
+        k = rng.randint(1, 24)
+        op = rng.choice([".", ".", "+.", ",", "-.", "", ".+"])
+        form = rng.randrange(5)
+        if form == 0:
+            body = d * k + op
+        elif form == 1:
+            body = d * k + op + r * rng.randint(0, k)
+        elif form == 2:
+            body = d * k + "[" + d * rng.randint(1, 8) + op + "]" + op
+        elif form == 3:
+            body = op + d * k
+        else:
+            body = d * rng.randint(1, 6) + op + d * k + op
+        src, inp = rng.choice([(",", [0]), (",", [1]), (",", [2]), ("", []), ("+", []), (",", []), ("-", [])])
+        tail = rng.choice(["", ".", "+.", d + ".", r + "+."])
+        prog = src + "[" + body + "]" + tail
+        if rng.random() < 0.3:
+            prog += "," + "[" + r * rng.randint(1, 12) + ".]" + "."
+            inp = inp + [rng.choice([0, 1])]
+        out.append({"pop": "K", "prog": prog, "input": inp})
     return out
 
 
@@ -88,7 +121,7 @@ def override_cases():
             c = json.loads(l)
             c = c.get("witness", c)
             out.append({"id": "X%d" % i, "pop": "X", "prog": c["prog"], "input": c.get("input", []),
-                        "w": c.get("w", 8)})
+                        "w": c.get("w", 8), "accel": c.get("accel", 0)})
     return out
 
 
@@ -146,7 +179,7 @@ def report_rejected(rep, bins, rejected, prop, max_shrink=12):
     delta-debugged natively; the shrunk case is reported only if TLC rejects its
     recording as well."""
     todo = [r for r in rejected if r[2]["claim"] == "complete" and r[1].get("mode", "exec") == "exec"
-            and r[1].get("alloc", "sys") == "sys"][:max_shrink]
+            and r[1].get("alloc", "sys") == "sys" and not r[0].get("accel")][:max_shrink]
     shrunk = {}
     if todo:
         reqs = [{"op": "shrink", "id": "s%d" % i, "prog": c["prog"], "w": c["w"], "input": c["input"], "run": run}
@@ -390,6 +423,34 @@ def nontrivial(done):
 
 
 # ------------------------------------------------------------------ C01-C04
+def heavy_side(rep, prop, bins, runs_for, n, profiles=("release",), tail_share=0.0, cases=None):
+    """Population H (vlib/heavy.py): runs of 2^32 canonical steps and more, made of linear loops that
+    BF.tla summarises in one step each (Accel).  Only configurations that fold such loops can finish
+    them; a run that is still going when the watchdog fires says nothing here and is dropped."""
+    from . import heavy
+    if cases is None:
+        cases = heavy.heavy_cases(seed(), n, tail_share)
+    judged = []
+    slow = 0
+    for prof in profiles:
+        executed = bf.execute(bins[prof], cases, runs_for)
+        for case, runs, results, done in executed:
+            for i, r in enumerate(results):
+                if r is not None and "hung" in r and not (runs[i].get("mode") == "limited"):
+                    results[i] = None
+                    slow += 1
+        judged.append((prof, executed))
+    out = adjudicate(rep, prop, bins, None, judged, name=prop + "-heavy")
+    rep.coverage["heavy_population"] = {
+        "cases": len(cases), "recordings_validated": len(out),
+        "runs_dropped_because_still_running": slow,
+        "accepted": sum(1 for j in out if j[3]["verdict"] == "accepted"),
+        "inconclusive": sum(1 for j in out if j[3]["verdict"] == "inconclusive"),
+        "rule": "programs that build k*2^(W/2), k*2^32, 2^(W-1)... through multiplication loops and then print, "
+                "test, subtract and loop on them; canonical runs of up to 2^64 steps, validated with BF!Accel"}
+    return out
+
+
 COMMENT_CHARS = list("a #\n\t!0") + ["\r", "é", "日", "\U0001F600", "ß", "€", "\U00010348", "\u012b", "\u012c", "\u012d",
                                           "\u012e", "\u013c", "\u013e", "\u015b", "\u015d", "\u4e2b", "\u305b"]
 
@@ -420,7 +481,7 @@ def commented_copies(cases, sd, share):
 
 
 def run_equivalence(prop, tier, backend_runs, pops, per_pop, profiles=("release",), adjudicate_max=3000,
-                    before=None, comment_share=0.0):
+                    before=None, comment_share=0.0, heavy=0):
     """Run cases whose canonical run is short on the given configurations,
     validate every distinct recording with TLC."""
     rep = Report(prop, "model_checking", tier)
@@ -459,6 +520,10 @@ def run_equivalence(prop, tier, backend_runs, pops, per_pop, profiles=("release"
         rep.count("exhaustive_cases_validated", len(keep) + sum(1 for e in dis if e[0]["pop"] == "E"))
         judged.append((prof, chosen))
     judged = adjudicate(rep, prop, bins, None, judged)
+    if heavy and (not os.environ.get("VERIF_CASES") or any(c.get("accel") for c in cases)):
+        hruns = [r for r in backend_runs({}) if r.get("level", 0) >= 1]
+        hcases = [c for c in cases if c.get("accel")] if os.environ.get("VERIF_CASES") else None
+        judged += heavy_side(rep, prop, bins, lambda c: [dict(r) for r in hruns], heavy, profiles, cases=hcases)
     rep.coverage["rule"] = ("cases: populations %s (E = every balanced program up to a length bound, enumerated by "
                             "TLC from BFGen.tla; the others seeded), run on %s; a case is non-trivial when its "
                             "canonical run has >= 1 loop iteration and >= 1 event; every distinct recording of a "
@@ -546,6 +611,55 @@ def design_check_bf(rep, tier):
     if res.violated:
         raise ToolError("MCBF: the canonical machine violates its own design property %s\n%s" % (
             res.violated, res.raw_tail))
+    # the one-step summary of linear loops (BF!Accel, used for runs of 2^32 steps and more) against the
+    # step-by-step run: every linear body up to a length bound x counter values x neighbour contents x widths
+    import itertools
+    maxb = 5 if tier == "quick" else 6
+    bodies = []
+    for n in range(1, maxb + 1):
+        for t in itertools.product("+-<>", repeat=n):
+            off, d0, ok = 0, 0, True
+            for ch in t:
+                if ch == ">":
+                    off += 1
+                elif ch == "<":
+                    off -= 1
+                elif off == 0:
+                    d0 += 1 if ch == "+" else -1
+            if off == 0 and d0 in (-1, 1):
+                bodies.append("".join(t))
+    lin = []
+    for b in bodies:
+        d0 = sum((1 if ch == "+" else -1) for ch, o in zip(b, _offsets(b)) if ch in "+-" and o == 0)
+        for pre in ("+", "++", "+++", "-", "--"):
+            for nb in ("", ">+<", "<-->", ">>-<<<+>"):
+                for w in (2, 3, 8):
+                    if w == 8 and d0 == (1 if pre[0] == "+" else -1) and (len(lin) % 40):
+                        continue             # ~250 iterations each: a sample only
+                    lin.append({"id": "ln%d" % len(lin), "prog": list(nb + pre + "[" + b + "]"), "w": w, "input": [],
+                                "outFail": -1, "inFail": -1, "inAbsent": 0, "outAbsent": 0, "inSilent": 0})
+    path = os.path.join(workdir("MCBF"), "linear.ndjson")
+    tlc.write_ndjson(path, lin)
+    res = tlc.run_tlc("MCBF", env={"CASES": path, "MAXSTEPS": 4000, "MAXEV": 40}, workers=max(2, NCPU - 2),
+                      timeout=3000, allow_violation=True)
+    rep.add_tlc(res)
+    rep.coverage["oracle_design_check"]["linear_loop_summary"] = {
+        "invariant": "AccelSound", "bodies": len(bodies), "max_body_length": maxb, "cases": len(lin),
+        "widths": [2, 3, 8], "distinct_states": res.distinct}
+    if res.violated:
+        raise ToolError("MCBF: the linear-loop summary disagrees with the step-by-step run (%s)\n%s" % (
+            res.violated, res.raw_tail))
+
+
+def _offsets(body):
+    out, off = [], 0
+    for ch in body:
+        out.append(off)
+        if ch == ">":
+            off += 1
+        elif ch == "<":
+            off -= 1
+    return out
 
 
 def c04(tier):
@@ -565,7 +679,8 @@ def c01(tier):
          "W": 12000}
     return run_equivalence("C01", tier, lambda c: [{"backend": "irint", "level": l} for l in levels],
                            ["E", "rnd", "S", "R", "M", "N", "L", "G", "I", "W"], per,
-                           adjudicate_max=2500 if tier == "quick" else 80000)
+                           adjudicate_max=2500 if tier == "quick" else 80000, comment_share=0.02,
+                           heavy=150 if tier == "quick" else 3000)
 
 
 def c02(tier):
@@ -575,7 +690,8 @@ def c02(tier):
          "G": 12000, "W": 8000}
     return run_equivalence("C02", tier, lambda c: [{"backend": "bcint", "level": l} for l in range(4)],
                            ["E", "rnd", "S", "R", "M", "N", "T", "L", "I", "G", "W"], per, profiles=("release", "debug"),
-                           adjudicate_max=5000 if tier == "quick" else 120000)
+                           adjudicate_max=5000 if tier == "quick" else 120000, comment_share=0.02,
+                           heavy=150 if tier == "quick" else 3000)
 
 
 def c03(tier):
@@ -585,7 +701,8 @@ def c03(tier):
          "G": 12000, "W": 8000}
     return run_equivalence("C03", tier, lambda c: [{"backend": "jit", "level": l} for l in range(4)],
                            ["E", "rnd", "S", "R", "M", "N", "T", "L", "I", "G", "W"], per,
-                           adjudicate_max=2500 if tier == "quick" else 80000)
+                           adjudicate_max=2500 if tier == "quick" else 80000, comment_share=0.02,
+                           heavy=300 if tier == "quick" else 6000)
 
 
 # ------------------------------------------------------------------ canonical facts
@@ -817,6 +934,21 @@ def c05(tier):
                             "recording is validated by TLC (BFTrace); counted as non-trivial: distinct divergent "
                             "cases that emit at least one event, distinct halting cases with >= 3 loop iterations")
     judged = adjudicate(rep, "C05", bins, "release", executed)
+    if not os.environ.get("VERIF_CASES") or any(c.get("accel") for c in cases):
+        # loops whose condition cell is non-zero only in its upper bits (k * 2^32 at 64 bit, ...): the
+        # canonical run needs 2^32 steps and more to get there, BF!Accel summarises them (population H)
+        from . import heavy as hv_
+        nh_ = 120 if tier == "quick" else 2500
+        hc = [c for c in cases if c.get("accel")] if os.environ.get("VERIF_CASES") else \
+            hv_.heavy_cases(sd, nh_, tail_share=0.7)
+
+        def hruns(c):
+            spin = "[]" in c["prog"]            # only the divergent tail contains an empty loop
+            if not spin:
+                return [r for r in config_runs({"mode": "exec"}) if r.get("level", 0) >= 1]
+            return (config_runs(dict({"mode": "limited", "budget": 1000}, **SINK)) +
+                    config_runs(dict({"mode": "limited", "budget": 10 ** 6}, **SINK)))
+        judged += heavy_side(rep, "C05", bins, hruns, nh_, cases=hc)
     settle(rep, "C05", bins, judged, shrink=False)
     return rep.finish()
 
@@ -826,9 +958,9 @@ def c10(tier):
     rep = Report("C10", "model_checking", tier)
     bins = build_harness(("release", "debug"))
     hv = bins["release"]
-    per = {"E": 6000, "S": 800, "T": 400, "rnd": 600, "N": 150, "R": 200, "W": 500} if tier == "quick" else \
-          {"E": 60000, "S": 10000, "T": 4000, "rnd": 8000, "N": 3000, "R": 400, "M": 4000, "W": 8000}
-    cases = halting_cases(rep, "C10", hv, tier, ["E", "S", "T", "rnd", "N", "R", "M", "W"], per,
+    per = {"E": 6000, "S": 800, "T": 400, "rnd": 600, "N": 150, "R": 200, "W": 500, "K": 500} if tier == "quick" else \
+          {"E": 60000, "S": 10000, "T": 4000, "rnd": 8000, "N": 3000, "R": 400, "M": 4000, "W": 8000, "K": 8000}
+    cases = halting_cases(rep, "C10", hv, tier, ["E", "S", "T", "rnd", "N", "R", "M", "W", "K"], per,
                           want=900 if tier == "quick" else 20000)
 
     def runs_for(c):
@@ -863,16 +995,19 @@ def c10(tier):
 # ------------------------------------------------------------------ C06 (executable half)
 def c06_runs(tier, rep, bins):
     hv = bins["release"]
-    per = {"T": 900, "S": 300, "N": 100, "rnd": 300, "M": 200, "W": 600} if tier == "quick" else \
-          {"T": 20000, "S": 8000, "N": 3000, "rnd": 6000, "E": 60000, "M": 4000, "W": 12000}
+    per = {"T": 900, "S": 300, "N": 100, "rnd": 300, "M": 200, "W": 600, "K": 200} if tier == "quick" else \
+          {"T": 20000, "S": 8000, "N": 3000, "rnd": 6000, "E": 60000, "M": 4000, "W": 12000, "K": 4000}
     sd = seed()
-    pops, per = dev_pops(["T", "S", "N", "rnd", "E", "M", "W"], per)
+    pops, per = dev_pops(["T", "S", "N", "rnd", "E", "M", "W", "K"], per)
     cases = override_cases() or population(hv, tier, sd, pops, per)
 
     def runs_release(c):
         runs = []
         for a in ("guardl", "guardr"):
             runs += config_runs({"alloc": a})
+        # the budgeted entry point is bounds-checked as well (one guard side per case)
+        side = "guardl" if sum(map(ord, c["id"])) % 2 else "guardr"
+        runs += config_runs({"alloc": side, "mode": "limited", "budget": bf.UNLIMITED})
         return runs
 
     def runs_debug(c):      # the debug build differs in the bytecode interpreter's dispatch only
